@@ -164,8 +164,8 @@ macro_rules! define_moments_common {
                         / Float::powf(n * (self.central_moment(2) / (n - 1.)), 1.5);
                 }
                 // Adjusted Fisher-Pearson standardized moment coefficient
-                Float::sqrt(n * (n - 1.)) / (n * (n - 2.))
-                    * Float::powf(self.central_moment(3) / (self.central_moment(2) / n), 1.5)
+                Float::sqrt(n * (n - 1.)) / (n - 2.)
+                    * self.central_moment(3) / Float::powf(self.central_moment(2), 1.5)
             }
 
             /// Calculate the sample excess kurtosis.
@@ -177,8 +177,8 @@ macro_rules! define_moments_common {
                     return f64::NAN;
                 }
                 let n = self.n.to_f64().unwrap();
-                (n + 1.) * n * self.central_moment(4)
-                    / ((n - 1.) * (n - 2.) * (n - 3.) * pow(self.central_moment(2), 2))
+                (n + 1.) * (n - 1.) * self.central_moment(4)
+                    / ((n - 2.) * (n - 3.) * pow(self.central_moment(2), 2))
                     - 3. * pow(n - 1., 2) / ((n - 2.) * (n - 3.))
             }
 
